@@ -9,9 +9,7 @@ int g_l, g_i, g_srcs;
 unsigned char *S_ec;
 unsigned char w_src[EC_KMAX], w_coef[EC_KMAX];
 unsigned char w_old, w_term;
-int g_r, g_c;
-unsigned char *w_a0, *w_t0;
-unsigned char w_lo, w_hi;
+int g_b;
 #include "splice_defaults.h"
 #include "erasure_code/ec_base.c"
 
